@@ -370,6 +370,10 @@ func (s *Solver) fallbacksN(script string, cr CheckResult, n int) CheckResult {
 		args      []string
 	}
 	sec := (s.timeout + 999) / 1000
+	sec4 := 4 * sec
+	if sec4 > 60 {
+		sec4 = 60 // the last round never waits longer than a minute per solver
+	}
 	rounds := [][]alt{
 		{
 			{"z3-new/default-config", "z3-new", []string{"-smt2", "-in", fmt.Sprintf("-T:%d", sec)}},
@@ -377,9 +381,9 @@ func (s *Solver) fallbacksN(script string, cr CheckResult, n int) CheckResult {
 			{"cvc5", "cvc5", []string{"--lang=smt2", fmt.Sprintf("--tlimit=%d", s.timeout)}},
 		},
 		{
-			{"z3-new/default-config/4x", "z3-new", []string{"-smt2", "-in", fmt.Sprintf("-T:%d", 4*sec)}},
-			{"z3-new/4x", "z3-new", []string{"-smt2", "-in", fmt.Sprintf("-T:%d", 4*sec)}},
-			{"z3-4.8.12/4x", "/usr/bin/z3", []string{"-smt2", "-in", fmt.Sprintf("-T:%d", 4*sec)}},
+			{"z3-new/default-config/4x", "z3-new", []string{"-smt2", "-in", fmt.Sprintf("-T:%d", sec4)}},
+			{"z3-new/4x", "z3-new", []string{"-smt2", "-in", fmt.Sprintf("-T:%d", sec4)}},
+			{"z3-4.8.12/4x", "/usr/bin/z3", []string{"-smt2", "-in", fmt.Sprintf("-T:%d", sec4)}},
 		},
 	}
 	if os.Getenv("GOVC_NO_LASTRESORT") != "" || n < 2 {
